@@ -28,7 +28,35 @@ def setup():
     shutil.copy("/verif/known_findings.txt", SW)
     os.makedirs(f"{SW}/replays", exist_ok=True)
 
+def own():
+    setup()
+    idx = json.load(open("/verif/seeded/own/INDEX.json"))
+    results = {}
+    if os.path.exists("/verif/seeded/own/RESULTS.json"):
+        results = json.load(open("/verif/seeded/own/RESULTS.json"))
+    names = sys.argv[2:] or sorted(idx)
+    for name in names:
+        pid = idx[name]["property"]
+        sh("git checkout -- .", WT)
+        rc, out = sh(f"git apply /verif/seeded/own/{name}.diff", WT)
+        if rc != 0:
+            results[name] = {"property": pid, "result": "patch does not apply"}; continue
+        rc, out = sh("cargo build --offline -q 2>&1 | grep -E '^error' -A5 | head -20", f"{SW}/harness")
+        if out.strip():
+            results[name] = {"property": pid, "result": "does not compile", "output": out.splitlines()[:4]}
+            print(name, "DOES NOT COMPILE", flush=True); continue
+        rc2, out2 = sh("cargo test --workspace --no-fail-fast --offline -j 6 2>&1 | grep -E '^test result' | head -1", WT)
+        t0 = time.time()
+        rc, out = sh(f"target/debug/vcheck {pid} quick", f"{SW}/harness")
+        lines = [l for l in out.splitlines() if l.startswith(("VIOLATION", "OK ", "INCONCLUSIVE", "  what", "  signature", "HARNESS"))]
+        results[name] = {"property": pid, "existing_tests": out2.strip(), "exit": rc, "secs": round(time.time() - t0, 1), "output": lines[:4]}
+        print(name, rc, out2.strip()[:40], lines[:2], flush=True)
+        sh("git checkout -- .", WT)
+        json.dump(results, open("/verif/seeded/own/RESULTS.json", "w"), indent=1)
+
 def main():
+    if len(sys.argv) > 1 and sys.argv[1] == "--own":
+        return own()
     setup()
     names = sys.argv[1:] or sorted(d for d in os.listdir("/verif/seeded") if os.path.isdir(f"/verif/seeded/{d}"))
     results = {}
